@@ -678,7 +678,10 @@ impl<'a> FormatParser<'a> {
     #[inline]
     fn punctuation_count(&mut self, expect: u8) -> u8 {
         self.remain().map_or(0, |rem| {
-            rem.iter().take_while(|&y| y.eq(&expect)).count() as u8
+            rem.iter()
+                .take(u8::MAX as usize - 1)
+                .take_while(|&y| y.eq(&expect))
+                .count() as u8
         })
     }
 
